@@ -704,6 +704,15 @@ func (fr *Frame) evalCall(e *CExpr, env *Env, hint *Sort) *GVal {
 			}
 			return tv(ex.p.NamedConst(strings.ReplaceAll(key, ":", ".")+"@no_call_"+sortIdent(s)+"_"+ex.fname0(), s))
 		}
+	case "flagName":
+		g := fr.evalC(e.Args[0], env, nil)
+		if g.Ptr != nil && g.Ptr.Cell != nil {
+			if t := ex.flagNames[g.Ptr.Cell]; t != nil {
+				return tv(t)
+			}
+		}
+		ex.unsupp("contract: flagName of something that is not a registered flag in %s", e)
+		return tv(ex.p.FreshConst("bad", SStr))
 	case "deref":
 		g := fr.evalC(e.Args[0], env, nil)
 		if g.Ptr != nil {
